@@ -18,6 +18,8 @@
 //	       and streamed bodies.
 //	hist   per-request limits (Server.HeaderReceived -> RequestConfig.MaxRequestBodySize) on histories of 2-4
 //	       requests on one connection: every request is bound by the limit applicable to THAT request.
+//	pool   client calls over re-used Response objects (AcquireResponse/ReleaseResponse, or kept by the caller):
+//	       a streaming client first, then a non-streaming client with MaxResponseBodySize=L on the same object.
 //	alloc  allocation watchdog (sequential, quiet process): runtime.MemStats.TotalAlloc delta around one
 //	       single-threaded call against 8*L + 32 MiB, with bombs that expand to 256 MiB and peers that
 //	       merely declare GiB sizes.
@@ -58,6 +60,7 @@ const (
 	baseUnz    = 5_000_000
 	baseMP     = 6_000_000
 	baseHist   = 7_000_000
+	basePool   = 8_000_000
 
 	defaultLimit = 4 << 20 // DefaultMaxRequestBodySize
 	bombSize     = 256 << 20
@@ -141,6 +144,9 @@ func parseResponses(wire []byte, max int) (out []wireResp, err error) {
 		resp, e := http.ReadResponse(br, &http.Request{Method: "POST"})
 		if e != nil {
 			return out, e
+		}
+		if resp.StatusCode >= 100 && resp.StatusCode < 200 {
+			continue // "100 Continue" is not the answer to the request
 		}
 		body, e := io.ReadAll(resp.Body)
 		resp.Body.Close()
@@ -299,6 +305,7 @@ func judgeRejected(r *mon.Run, ci int, fam string, calls []call, conn *netx.Scri
 
 func runSrv(r *mon.Run) {
 	n := r.N(1500, 40_000)
+	nForced := r.N(4, 12)
 	mon.Parallel(n, 0, func(i int) {
 		ci := baseSrv + i
 		if !r.Want(ci) {
@@ -312,6 +319,17 @@ func runSrv(r *mon.Run) {
 		}
 		rbs := []int{0, 0, 512, 4096, 8192, 1000}[rnd.Intn(6)]
 		enc := []string{"fixed", "chunked"}[rnd.Intn(2)]
+		// Expect: 100-continue (accepted: no ContinueHandler/ExpectHandler, or ones that accept): the body is
+		// read by a different call site of the server and must obey the same limit
+		expect := rnd.Intn(3) == 0
+		// a handful of cases per run pin the DEFAULT limit on the Expect path (4 MiB + 1 must be rejected, 4 MiB may pass)
+		forced := i < nForced
+		if forced {
+			cfgL, L, expect = -(i % 2), defaultLimit, true
+			enc = []string{"fixed", "chunked"}[(i/2)%2]
+		}
+		lazyBody := expect && rnd.Intn(2) == 0 // the client sends the body only after it saw "100 Continue"
+		acceptor := rnd.Intn(3)                // 0: no handler, 1: ContinueHandler accepting, 2: ExpectHandler accepting
 		// body size relative to the limit
 		var T int
 		rel := ""
@@ -330,6 +348,13 @@ func runSrv(r *mon.Run) {
 			T, rel = rnd.Intn(L+1), "<=L"
 		default:
 			T, rel = -1, "declared"
+		}
+		if forced {
+			if i%4 < 3 {
+				T, rel = L+1, "L+1"
+			} else {
+				T, rel = L, "L"
+			}
 		}
 		var script bytes.Buffer
 		var sent []byte
@@ -371,10 +396,34 @@ func runSrv(r *mon.Run) {
 			}
 		}
 		script.WriteString(followUp)
+		wire := script.Bytes()
+		var onStarve func() []byte
+		if expect {
+			wire = bytes.Replace(wire, []byte("Host: c07\r\n"), []byte("Host: c07\r\nExpect: 100-continue\r\n"), 1)
+			if lazyBody {
+				he := bytes.Index(wire, []byte("\r\n\r\n")) + 4
+				rest := wire[he:]
+				wire = wire[:he:he]
+				given := false
+				onStarve = func() []byte {
+					if given {
+						return nil
+					}
+					given = true
+					return rest
+				}
+			}
+		}
 		frag, fname := fragFor(rnd, script.Len())
 		srv := &fasthttp.Server{MaxRequestBodySize: cfgL, ReadBufferSize: rbs, ReduceMemoryUsage: rnd.Intn(4) == 0}
-		calls, conn, panicked, fin := serve(srv, script.Bytes(), frag, !over, false)
-		payload := map[string]any{"limit": L, "configured": cfgL, "encoding": enc, "body_len": T, "declared": declared, "read_buffer_size": rbs, "frag": fname, "script_head": mon.Short(script.Bytes(), 160)}
+		switch acceptor {
+		case 1:
+			srv.ContinueHandler = func(*fasthttp.RequestHeader) bool { return true }
+		case 2:
+			srv.ExpectHandler = func(*fasthttp.RequestCtx) int { return fasthttp.StatusContinue }
+		}
+		calls, conn, panicked, fin := serveWith(srv, wire, frag, !over, false, onStarve)
+		payload := map[string]any{"limit": L, "configured": cfgL, "encoding": enc, "body_len": T, "declared": declared, "read_buffer_size": rbs, "frag": fname, "expect_100_continue": expect, "body_after_100": lazyBody, "acceptor": acceptor, "script_head": mon.Short(wire, 160)}
 		if !fin {
 			r.Inconclusive(fmt.Sprintf("srv case %d: ServeConn did not return", ci))
 			return
@@ -389,8 +438,17 @@ func runSrv(r *mon.Run) {
 		} else if L >= 4095 {
 			lc = "4K"
 		}
-		r.Case(fmt.Sprintf("srv/%s/%s/L=%s/cfg=%t/frag=%s/decl=%t", enc, rel, lc, cfgL > 0, fname, declared != ""), over || T == L)
+		r.Case(fmt.Sprintf("srv/%s/%s/L=%s/cfg=%t/frag=%s/decl=%t/expect=%t/lazy=%t/acc=%d", enc, rel, lc, cfgL > 0, fname, declared != "", expect, lazyBody, acceptor), over || T == L)
 		r.Event("srv_cases", 1)
+		if expect {
+			r.Event("srv_expect_cases", 1)
+			if over {
+				r.Event("srv_expect_over_limit_checked", 1)
+			}
+			if cfgL <= 0 && T == L+1 {
+				r.Event("srv_expect_default_limit_plus_one", 1)
+			}
+		}
 		for _, c := range calls {
 			if c.path == "/up" && c.bodyLen > L {
 				r.Violation(ci, "srv-handler-got-over-limit-body", fmt.Sprintf("handler received %d body bytes with MaxRequestBodySize %d (effective %d)", c.bodyLen, cfgL, L), payload)
@@ -424,6 +482,8 @@ func runSrv(r *mon.Run) {
 		r.Require("srv_cases", n)
 		r.Require("srv_over_limit_checked", n/4)
 		r.Require("srv_within_limit_accepted", n/4)
+		r.Require("srv_expect_over_limit_checked", n/20)
+		r.Require("srv_expect_default_limit_plus_one", 3)
 	}
 }
 
@@ -1291,6 +1351,8 @@ type histReq struct {
 	enc     string
 	body    []byte
 	wire    []byte
+	expect  bool // announced with Expect: 100-continue
+	headLen int
 }
 
 // runHist: histories of 2-4 requests on one keep-alive / pipelined connection. Server.HeaderReceived
@@ -1374,6 +1436,9 @@ func runHist(r *mon.Run) {
 			if q.grant > 0 {
 				fmt.Fprintf(&w, "X-Grant: %d\r\n", q.grant)
 			}
+			if q.expect = rnd.Intn(3) == 0; q.expect {
+				w.WriteString("Expect: 100-continue\r\n")
+			}
 			if q.enc == "fixed" {
 				fmt.Fprintf(&w, "Content-Length: %d\r\n\r\n", q.bodyLen)
 				w.Write(q.body)
@@ -1386,6 +1451,7 @@ func runHist(r *mon.Run) {
 				w.Write(chunked(q.body, rnd, mc))
 			}
 			q.wire = w.Bytes()
+			q.headLen = bytes.Index(q.wire, []byte("\r\n\r\n")) + 4
 			if firstOver < 0 && q.bodyLen > A {
 				firstOver = j
 			}
@@ -1407,16 +1473,23 @@ func runHist(r *mon.Run) {
 		var script []byte
 		var onStarve func() []byte
 		if lazy {
-			next := 1
-			script = append(script, reqs[0].wire...)
-			onStarve = func() []byte {
-				if next < len(reqs) {
-					next++
-					return reqs[next-1].wire
+			// pieces: a request announced with Expect sends its body only after the server asked for more
+			// (i.e. after "100 Continue"), every other request is one piece
+			var pieces [][]byte
+			for _, q := range reqs {
+				if q.expect && q.headLen < len(q.wire) {
+					pieces = append(pieces, q.wire[:q.headLen], q.wire[q.headLen:])
+				} else {
+					pieces = append(pieces, q.wire)
 				}
-				if next == len(reqs) {
+			}
+			pieces = append(pieces, []byte(followUp))
+			next := 1
+			script = append(script, pieces[0]...)
+			onStarve = func() []byte {
+				if next < len(pieces) {
 					next++
-					return []byte(followUp)
+					return pieces[next-1]
 				}
 				return nil
 			}
@@ -1434,7 +1507,11 @@ func runHist(r *mon.Run) {
 		calls, conn, panicked, fin := serveWith(srv, script, frag, true, false, onStarve)
 		var desc []string
 		for _, q := range reqs {
-			desc = append(desc, fmt.Sprintf("grant=%d applicable=%d body=%d %s", q.grant, q.applic, q.bodyLen, q.enc))
+			e := ""
+			if q.expect {
+				e = " expect"
+			}
+			desc = append(desc, fmt.Sprintf("grant=%d applicable=%d body=%d %s%s", q.grant, q.applic, q.bodyLen, q.enc, e))
 		}
 		payload := map[string]any{"server_limit": cfgS, "effective_server_limit": S, "requests": desc, "first_over_limit": firstOver, "lazy_delivery": lazy, "frag": fname}
 		if !fin {
@@ -1456,8 +1533,26 @@ func runHist(r *mon.Run) {
 				grants += "-"
 			}
 		}
-		r.Case(fmt.Sprintf("hist/k=%d/grants=%s/firstover=%d/leakprobe=%t/lazy=%t/frag=%s", k, grants, firstOver, leakProbe, lazy, fname), strings.ContainsAny(grants, "+-") && strings.Contains(grants, "0"))
+		exp := ""
+		for _, q := range reqs {
+			if q.expect {
+				exp += "e"
+			} else {
+				exp += "-"
+			}
+		}
+		r.Case(fmt.Sprintf("hist/k=%d/grants=%s/expect=%s/firstover=%d/leakprobe=%t/lazy=%t/frag=%s", k, grants, exp, firstOver, leakProbe, lazy, fname), strings.ContainsAny(grants, "+-") && strings.Contains(grants, "0"))
 		r.Event("hist_cases", 1)
+		anyExpect := false
+		for _, q := range reqs {
+			anyExpect = anyExpect || q.expect
+		}
+		if anyExpect {
+			r.Event("hist_with_expect", 1)
+		}
+		if firstOver >= 0 && reqs[firstOver].expect {
+			r.Event("hist_expect_over_limit_checked", 1)
+		}
 		if leakProbe {
 			r.Event("hist_earlier_grant_probes", 1)
 		}
@@ -1536,6 +1631,201 @@ func runHist(r *mon.Run) {
 		r.Require("hist_over_limit_checked", n/4)
 		r.Require("hist_all_within_limit_served", n/10)
 		r.Require("hist_earlier_grant_probes", n/40)
+		r.Require("hist_expect_over_limit_checked", n/20)
+	}
+}
+
+// ---------------------------------------------------------------- pool (state carried in re-used Response objects)
+
+type poolStep struct {
+	streaming bool   // the client of this step has StreamResponseBody=true
+	useClient bool   // fasthttp.Client instead of HostClient
+	L         int    // MaxResponseBodySize of the client
+	T         int    // response body size
+	enc       string // fixed / chunked / identity
+	raw       []byte
+	sent      []byte
+}
+
+// runPool: 2-4 client calls in a row on one goroutine, alternating clients with StreamResponseBody=true
+// and non-streaming clients with MaxResponseBodySize=L, over Response objects that are re-used: taken from
+// AcquireResponse and given back with ReleaseResponse (the pool hands the same object to the next caller),
+// or kept by the caller across calls with Reset() / with StreamBody cleared by hand in between. Whatever an
+// earlier call did to the object, a non-streaming client must answer a body larger than its limit with
+// ErrBodyTooLarge and never hand out more than L body bytes.
+func runPool(r *mon.Run) {
+	n := r.N(1200, 30_000)
+	mon.Parallel(n, 0, func(i int) {
+		ci := basePool + i
+		if !r.Want(ci) {
+			return
+		}
+		rnd := r.Rand("pool", i)
+		strategy := []string{"pool", "pool", "reuse-reset", "reuse-clearflag", "reuse-raw"}[rnd.Intn(5)]
+		k := 2 + rnd.Intn(3)
+		steps := make([]*poolStep, k)
+		for j := range steps {
+			st := &poolStep{streaming: rnd.Intn(2) == 0, useClient: rnd.Intn(3) == 0}
+			if j == 0 && rnd.Intn(3) != 0 {
+				st.streaming = true // most histories start with the streaming client
+			}
+			if j == k-1 {
+				st.streaming = false // ... and end with a non-streaming one
+			}
+			st.L = []int{1, 16, 100, 1000, 4096, 20_000}[rnd.Intn(6)]
+			st.T = []int{0, st.L - 1, st.L, st.L + 1, st.L + 1, st.L + 1 + rnd.Intn(3000), rnd.Intn(st.L + 1), 3*st.L + 10}[rnd.Intn(8)]
+			st.enc = []string{"fixed", "chunked", "identity"}[rnd.Intn(3)]
+			st.sent = make([]byte, st.T)
+			fill(st.sent, rnd)
+			var raw bytes.Buffer
+			switch st.enc {
+			case "fixed":
+				fmt.Fprintf(&raw, "HTTP/1.1 200 OK\r\nConnection: close\r\nContent-Length: %d\r\n\r\n", st.T)
+				raw.Write(st.sent)
+			case "chunked":
+				raw.WriteString("HTTP/1.1 200 OK\r\nConnection: close\r\nTransfer-Encoding: chunked\r\n\r\n")
+				raw.Write(chunked(st.sent, rnd, []int{1, 300, 70_000}[rnd.Intn(3)]))
+			default:
+				raw.WriteString("HTTP/1.1 200 OK\r\nConnection: close\r\n\r\n")
+				raw.Write(st.sent)
+			}
+			st.raw = raw.Bytes()
+			steps[j] = st
+		}
+		var desc []string
+		for _, st := range steps {
+			c := "HostClient"
+			if st.useClient {
+				c = "Client"
+			}
+			desc = append(desc, fmt.Sprintf("%s stream=%t limit=%d body=%d %s", c, st.streaming, st.L, st.T, st.enc))
+		}
+		payload := map[string]any{"strategy": strategy, "steps": desc}
+		var held *fasthttp.Response // the object the caller keeps (reuse-* strategies)
+		var prevPtr *fasthttp.Response
+		prevStreaming, anyPrevStreaming := false, false
+		for j, st := range steps {
+			dial := func(string) (net.Conn, error) { return netx.NewScripted(st.raw, netx.FragFixed(1500)), nil }
+			do := func(req *fasthttp.Request, resp *fasthttp.Response) error {
+				if st.useClient {
+					c := &fasthttp.Client{MaxResponseBodySize: st.L, StreamResponseBody: st.streaming, Dial: dial}
+					return c.Do(req, resp)
+				}
+				hc := &fasthttp.HostClient{Addr: "c07:80", MaxResponseBodySize: st.L, StreamResponseBody: st.streaming, Dial: dial}
+				return hc.Do(req, resp)
+			}
+			var resp *fasthttp.Response
+			switch strategy {
+			case "pool":
+				resp = fasthttp.AcquireResponse()
+				if resp == prevPtr {
+					r.Event("pool_same_object_reacquired", 1)
+				}
+			default:
+				if held == nil {
+					held = &fasthttp.Response{}
+				} else if strategy == "reuse-reset" {
+					held.Reset()
+				} else if strategy == "reuse-clearflag" {
+					held.StreamBody = false
+				}
+				resp = held
+			}
+			req := fasthttp.AcquireRequest()
+			req.SetRequestURI("http://c07/x")
+			req.Header.SetMethod("POST") // never retried
+			req.SetBodyString("q")
+			var err error
+			var body []byte
+			var panicked any
+			wasStream := false
+			fin := mon.Watchdog(120*time.Second, func() {
+				defer func() { panicked = recover() }()
+				err = do(req, resp)
+				if err == nil {
+					wasStream = resp.IsBodyStream()
+					body = append([]byte(nil), resp.Body()...) // drains a stream
+					resp.CloseBodyStream()                     //nolint:errcheck
+				}
+			})
+			fasthttp.ReleaseRequest(req)
+			if !fin {
+				r.Inconclusive(fmt.Sprintf("pool case %d step %d: client call did not return", ci, j))
+				return
+			}
+			if panicked != nil {
+				r.Violation(ci, "panic", fmt.Sprintf("client call panicked at step %d: %v", j, panicked), payload)
+				return
+			}
+			r.Event("pool_steps", 1)
+			over := st.T > st.L
+			// a Response the caller kept WITHOUT resetting it still carries StreamBody=true from the streaming call:
+			// StreamBody is a public request-for-streaming flag, so that call is a streamed one and outside C07
+			callerAskedForStream := strategy == "reuse-raw" && anyPrevStreaming
+			switch {
+			case st.streaming:
+				r.Event("pool_streaming_steps", 1)
+				if err == nil && !bytes.Equal(body, st.sent) {
+					r.Violation(ci, "pool-streamed-body-corrupted", fmt.Sprintf("step %d: streamed body has %d bytes, %d sent", j, len(body), len(st.sent)), payload)
+				}
+			case callerAskedForStream:
+				r.Event("pool_skipped_caller_kept_streambody_flag", 1)
+			default:
+				r.Event("pool_nonstreaming_steps", 1)
+				if prevStreaming {
+					r.Event("pool_nonstreaming_after_streaming", 1)
+				}
+				suffix := ""
+				if anyPrevStreaming {
+					suffix = "-after-streaming-client"
+				}
+				switch {
+				case err == nil && (len(body) > st.L || wasStream && over):
+					r.Violation(ci, "pool-returned-over-limit-body"+suffix, fmt.Sprintf("step %d (%s, strategy %s): non-streaming client with MaxResponseBodySize %d handed out %d body bytes (streamed=%t); steps: %v", j, desc[j], strategy, st.L, len(body), wasStream, desc), payload)
+				case err == nil && over:
+					r.Violation(ci, "pool-over-limit-accepted-truncated"+suffix, fmt.Sprintf("step %d: success with %d of %d bytes, limit %d", j, len(body), st.T, st.L), payload)
+				case err == nil:
+					r.Event("pool_within_limit_accepted", 1)
+					if !bytes.Equal(body, st.sent) {
+						r.Violation(ci, "pool-accepted-body-corrupted", fmt.Sprintf("step %d: %d bytes, %d sent", j, len(body), len(st.sent)), payload)
+					}
+				case over:
+					r.Event("pool_over_limit_checked", 1)
+					if anyPrevStreaming {
+						r.Event("pool_over_limit_after_streaming_checked", 1)
+					}
+					if !errors.Is(err, fasthttp.ErrBodyTooLarge) {
+						r.Violation(ci, "pool-over-limit-wrong-error"+suffix, fmt.Sprintf("step %d: error %q is not ErrBodyTooLarge (body %d, limit %d)", j, err, st.T, st.L), payload)
+					}
+				default:
+					r.Event("pool_within_limit_rejected", 1)
+				}
+			}
+			prevStreaming = st.streaming
+			anyPrevStreaming = anyPrevStreaming || st.streaming
+			if strategy == "pool" {
+				prevPtr = resp
+				fasthttp.ReleaseResponse(resp)
+			}
+		}
+		pat := ""
+		for _, st := range steps {
+			if st.streaming {
+				pat += "S"
+			} else if st.T > st.L {
+				pat += "o"
+			} else {
+				pat += "w"
+			}
+		}
+		r.Case(fmt.Sprintf("pool/%s/%s", strategy, pat), strings.Contains(pat, "So") || strings.Contains(pat, "Sw"))
+		r.Event("pool_cases", 1)
+	})
+	if !r.Replaying() {
+		r.Require("pool_cases", n)
+		r.Require("pool_over_limit_after_streaming_checked", n/8)
+		r.Require("pool_same_object_reacquired", n/8)
+		r.Require("pool_within_limit_accepted", n/8)
 	}
 }
 
@@ -1672,7 +1962,7 @@ func runAlloc(r *mon.Run, bs *bombSet) {
 func TestC07(t *testing.T) {
 	r := mon.Start(t, "C07")
 	defer r.Finish()
-	r.Rule("L from {1,2,15,16,100,4095,4096,4097,1 MiB,4 MiB+1} plus random and the default (MaxRequestBodySize<=0 => 4 MiB); body size from {0,L-1,L,L+1,L+k,<=L} or merely declared (Content-Length / chunk size from L+1 to 2^63-1 and unrepresentable); encodings fixed / chunked (random split, extensions, zero padding, a declared-huge chunk after a valid one) / identity-until-close; delivery fragmentation 1…4096 bytes; families: srv (ServeConn on a scripted conn + follow-up request), head (ReadBufferSize 16…8192 and default × head of exactly RBS-1/RBS/RBS+1/…, first or second on the connection), read (Request/Response.ReadLimitBody), client (HostClient.MaxResponseBodySize), unz (4 codecs × Request/Response × Body*WithLimit/BodyUncompressedWithLimit on 256 MiB and 8 MiB bombs and on payloads of L-1/L/L+1 bytes), mp (multipart via server pre-parse/on demand/chunked and MultipartFormWithLimit on plain/gzip/streamed bodies), hist (2-4 requests on one pipelined or keep-alive connection, Server.HeaderReceived granting a raised/lowered MaxRequestBodySize to PRNG-chosen requests and the zero RequestConfig to the others, bodies just under/over the limit applicable to each request, incl. bodies that fit an earlier grant but not the current limit), alloc (sequential TotalAlloc watchdog). distinct = feature vectors (family, encoding, size relation, limit class, fragmentation, …); non-trivial = size >= L or declared-huge, or any bomb/multipart/alloc case")
+	r.Rule("L from {1,2,15,16,100,4095,4096,4097,1 MiB,4 MiB+1} plus random and the default (MaxRequestBodySize<=0 => 4 MiB); body size from {0,L-1,L,L+1,L+k,<=L} or merely declared (Content-Length / chunk size from L+1 to 2^63-1 and unrepresentable); encodings fixed / chunked (random split, extensions, zero padding, a declared-huge chunk after a valid one) / identity-until-close; delivery fragmentation 1…4096 bytes; families: srv (ServeConn on a scripted conn + follow-up request), head (ReadBufferSize 16…8192 and default × head of exactly RBS-1/RBS/RBS+1/…, first or second on the connection), read (Request/Response.ReadLimitBody), client (HostClient.MaxResponseBodySize), unz (4 codecs × Request/Response × Body*WithLimit/BodyUncompressedWithLimit on 256 MiB and 8 MiB bombs and on payloads of L-1/L/L+1 bytes), mp (multipart via server pre-parse/on demand/chunked and MultipartFormWithLimit on plain/gzip/streamed bodies), hist (2-4 requests on one pipelined or keep-alive connection, Server.HeaderReceived granting a raised/lowered MaxRequestBodySize to PRNG-chosen requests and the zero RequestConfig to the others, bodies just under/over the limit applicable to each request, incl. bodies that fit an earlier grant but not the current limit), pool (2-4 client calls over one re-used Response object - pooled, or kept by the caller with Reset()/StreamBody=false/nothing in between - alternating StreamResponseBody clients with non-streaming HostClient/Client limits), Expect: 100-continue variants of srv and hist (no handler / accepting ContinueHandler / accepting ExpectHandler; body sent with the head or only after 100 Continue; a handful of default-limit 4 MiB+1 cases), alloc (sequential TotalAlloc watchdog). distinct = feature vectors (family, encoding, size relation, limit class, fragmentation, …); non-trivial = size >= L or declared-huge, or any bomb/multipart/alloc case")
 	r.Assume("judged against L exactly: what a handler/caller receives on success and what *WithLimit helpers return; on the error path the body buffer may hold L plus one I/O buffer (max(bufio size, 4096)) because the identity reader notices the excess only after a read; the test's readers never deliver more than 4096 bytes per Read")
 	r.Assume("acceptance of bodies <= L is not demanded by C07; it is counted (…_within_limit_accepted / …_rejected) and required to occur so that the bound is not vacuous; an accepted body must equal the sent body")
 	r.Assume("unrepresentable sizes (>= 2^63, 16+ hex digits) may fail with any error; for every representable over-limit size the client-side error must satisfy errors.Is(err, ErrBodyTooLarge); the server answers with any status >= 400 (fasthttp uses 400, not 413)")
@@ -1701,6 +1991,7 @@ func TestC07(t *testing.T) {
 	phase("unz", func() { runUnz(r, bs) })
 	phase("mp", func() { runMP(r) })
 	phase("hist", func() { runHist(r) })
+	phase("pool", func() { runPool(r) })
 	r.Set("phase_seconds", phases)
 	notesMu.Lock()
 	r.Set("observed_not_judged", notes)
